@@ -17,11 +17,13 @@ func init() { families["handshake"] = famHandshake }
 //	inbound  (raw client opens against a real server)
 //	  A: init req x version{0,1,2,3,65535} x id{1,0,0xfffffffe} x params{both,no host_port,no process_name,none}
 //	     x host_port{ephemeral,real,present but empty} x cut{whole, 8 bytes, mid-payload (stream cut short),
-//	       well-framed short frame after the count, well-framed short frame inside the params}  = 900
+//	       well-framed short frame after the count, well-framed short frame inside the params,
+//	       well-framed frame ending on a pair boundary with the last pair missing (count unchanged),
+//	       all pairs present but a count of 65535}                                        = 1260
 //	  B: first frame of another type (11 types) x cut{whole,8 bytes}                         = 22
 //	  C: silence past the deadline                                                            = 1
 //	outbound (real client connects to a raw server)
-//	  D: reply init res x version(5) x id{echo,wrong} x params(4) x host_port(3) x cut(5)    = 600
+//	  D: reply init res x version(5) x id{echo,wrong} x params(4) x host_port(3) x cut(7)    = 840
 //	  E: reply of another type (6 types) x id{echo,wrong}                                    = 12
 //	  F: silence                                                                             = 1
 //
@@ -34,10 +36,10 @@ var (
 )
 
 const (
-	hsA = 5 * 3 * 4 * 3 * 5
+	hsA = 5 * 3 * 4 * 3 * 7
 	hsB = 11 * 2
 	hsC = 1
-	hsD = 5 * 2 * 4 * 3 * 5
+	hsD = 5 * 2 * 4 * 3 * 7
 	hsE = 6 * 2
 	hsF = 1
 )
@@ -71,6 +73,32 @@ func hsCut(b []byte, cut int) ([]byte, bool) {
 		}
 		o := append([]byte(nil), b[:n]...)
 		o[0], o[1] = byte(n>>8), byte(n)
+		return o, true
+	case 5, 6:
+		// a WELL-FRAMED message whose parameter count promises more pairs than it
+		// carries, ending exactly on a pair boundary: 5 = the last pair is missing,
+		// 6 = every pair is there and the count says 65535
+		if len(b) < wire.HeaderSize+4 {
+			return b, false
+		}
+		np := int(b[wire.HeaderSize+2])<<8 | int(b[wire.HeaderSize+3])
+		if cut == 6 {
+			o := append([]byte(nil), b...)
+			o[wire.HeaderSize+2], o[wire.HeaderSize+3] = 0xff, 0xff
+			return o, true
+		}
+		if np == 0 {
+			return b, false
+		}
+		off, last := wire.HeaderSize+4, 0
+		for i := 0; i < np; i++ {
+			last = off
+			for j := 0; j < 2; j++ {
+				off += 2 + (int(b[off])<<8 | int(b[off+1]))
+			}
+		}
+		o := append([]byte(nil), b[:last]...)
+		o[0], o[1] = byte(last>>8), byte(last)
 		return o, true
 	case 1:
 		return b[:8], true
@@ -160,8 +188,8 @@ func (w *World) hsInbound(srv *Node, c int) {
 	switch {
 	case c < hsA:
 		x := c
-		cut := x % 5
-		x /= 5
+		cut := x % 7
+		x /= 7
 		hp := x % 3
 		x /= 3
 		ps := x % 4
@@ -302,8 +330,8 @@ func (w *World) hsOutbound(c int) {
 	switch {
 	case c < hsD:
 		x := c
-		cut := x % 5
-		x /= 5
+		cut := x % 7
+		x /= 7
 		hp := x % 3
 		x /= 3
 		ps := x % 4
